@@ -4,13 +4,17 @@ The structural specification of C02 as a RELATION, written from the property sta
 basic payloads unchanged, nil ↦ nil, non-nil pointers to the image of the pointee, a value meeting a pointer target
 becomes a non-nil pointer to its image, slices/arrays element-wise in order (same length), maps entry-wise (same number
 of entries), structs field-wise: every target field is the image of the same-named source field.
-(`*T → U` and target fields without a source are C11/C05 matters and are not part of this relation.)
+(`*T → U` is included: nil gives the zero value; target fields without a source are a C05 matter and not part of this relation.)
 -/
 import Gv.Model.Eval
 import Gv.Spec.Structural
 
 namespace Gv.Spec
 open Gv Gv.Str Gv.Eval
+
+/-- `w` is the (location-free) zero value of type `t`, to whatever nesting depth the evaluation looked at (`nil` stands for
+a zero value that was not expanded at all) -/
+def IsZeroOf (env : TEnv) (t : Ty) (w : Val) : Prop := w = .nil ∨ ∃ k, w = erase (zeroVal env k t)
 
 mutual
   inductive Img (env : TEnv) : Ty → Ty → Val → Val → Prop
@@ -20,6 +24,10 @@ mutual
         Img env s t (.ptr l x) (.ptr .none y)
     | toPtr {s t te v w} : (∀ e, under env s ≠ .ptr e) → under env t = .ptr te → Img env s te v w →
         Img env s t v (.ptr .none w)
+    /-- `*T → U` (allowed by useZeroValueOnPointerInconsistency): a nil pointer gives the zero value of `U` … -/
+    | srcNil {s t se w} : under env s = .ptr se → (∀ e, under env t ≠ .ptr e) → IsZeroOf env t w → Img env s t .nil w
+    /-- … and a non-nil one the image of the pointee -/
+    | srcPtr {s t se l x y} : under env s = .ptr se → (∀ e, under env t ≠ .ptr e) → Img env se t x y → Img env s t (.ptr l x) y
     | sliceNil {s t se te} : under env s = .slice se → under env t = .slice te → Img env s t .nil .nil
     | slice {s t se te l vs ws} : under env s = .slice se → under env t = .slice te → ImgList env se te vs ws →
         Img env s t (.slice l vs) (.slice .none ws)
